@@ -423,6 +423,16 @@ impl CoreInner {
 		let mut active_memtable = self.active_memtable.write()?;
 
 		if active_memtable.is_empty() {
+			// Nothing to flush. But an empty memtable can still have a used-up arena:
+			// a batch that did not fit failed part-way through its allocations. Every
+			// later batch would then be bounced with ArenaFull and "rotated" to this
+			// same memtable again, so every commit would fail until restart. Start over
+			// with a fresh arena, on the same commit-log segment.
+			if active_memtable.has_wasted_arena() {
+				let fresh = Arc::new(MemTable::new(self.opts.max_memtable_size));
+				fresh.set_wal_number(active_memtable.get_wal_number());
+				*active_memtable = fresh;
+			}
 			return Ok(());
 		}
 
